@@ -356,7 +356,7 @@ META["C07"] = {
     "required": ["events:simplify:direct", "events:simplify:nested", "events:contract-level",
                  "simplify:returned-on-feasible:direct", "simplify:returned-on-feasible:nested",
                  "simplify:dropped-something:direct", "simplify:raise-justified", "family:via_context",
-                 "family:near_tight", "family:combinations", "family:near_ctx", "family:varfree", "family:equalities",
+                 "family:near_tight", "family:combinations", "family:near_ctx", "family:varfree", "family:equalities", "core_cases",
                  "events:contract-level-irredundancy"],
     "assumptions": [NUM, TB, "a kept constraint counts as redundant only when implied with a margin of "
                     "1e-4*(1+|c|); systems without an interior point at margin 1e-3 may raise or return"],
